@@ -103,7 +103,7 @@ fn expectation(c: &Config) -> Exp {
     Exp::Accept { locales: eff }
 }
 
-const SURROUNDS: usize = 5;
+const SURROUNDS: usize = 10;
 
 fn manifest(c: &Config, surround: usize) -> String {
     let pkg = "[package]\nname = \"probe\"\nversion = \"0.1.0\"\nedition = \"2021\"\n\n";
@@ -113,7 +113,16 @@ fn manifest(c: &Config, surround: usize) -> String {
         1 => format!("{pkg}[package.metadata.other]\nlocales = [\"zz\"]\ndefault = \"zz\"\n\n{table}"),
         2 => format!("{pkg}{table}\n[dependencies]\nserde = {{ version = \"1\", features = [\"derive\"] }}\nleptos = \"0.7\"\n\n[features]\ndefault = [\"x\"]\nx = []\n"),
         3 => format!("# translations\n{pkg}{table}# trailing comment: default = \"zz\"\n\n[package.metadata.docs]\nlocales = 3\n"),
-        _ => format!("{pkg}[dependencies]\nserde = {{ version = \"1\" }}\n\n{table}\n[lib]\npath = \"src/lib.rs\"\n"),
+        4 => format!("{pkg}[dependencies]\nserde = {{ version = \"1\" }}\n\n{table}\n[lib]\npath = \"src/lib.rs\"\n"),
+        // the table is the first thing in the manifest / the only thing
+        5 => format!("{table}\n{pkg}"),
+        6 => table,
+        // indented (TOML allows white space before a header and before keys)
+        7 => format!("{pkg}{}", table.lines().map(|l| format!("  \t{l}\n")).collect::<String>()),
+        // CRLF line ends
+        8 => format!("{pkg}{table}\n[dependencies]\nserde = \"1\"\n").replace('\n', "\r\n"),
+        // the header's text also stands in a comment further up
+        _ => format!("{pkg}# the translations are configured in [package.metadata.leptos-i18n] below\n\n{table}"),
     }
 }
 
@@ -385,7 +394,7 @@ pub fn run(tier: Tier) -> i32 {
         rep.sample(json!({"manifest": manifest(&cases[j].cfg, cases[j].surround), "expectation": format!("{:?}", expectation(&cases[j].cfg))}));
     }
     let mut cov = serde_json::Map::new();
-    cov.insert("rule".into(), json!("locales in {missing} + every list of length 0..=3 over {en,fr,de} (duplicates included) x default in {en,fr,de,it (unlisted),missing} x namespaces in {absent,[a],[a,b],[b,a],[a,a],[]} x inherits in {none} + every single entry over {en,fr,de,it,xx}^2 (thorough: + five 2-entry maps) x (locales-dir in {absent,./l10n,a/b/,l10n/,locales,../shared_l10n,.hidden,./.dot/x,..//up,an absolute path} x 5 surrounding-manifest shapes x unknown fields: rotated in quick, a third of the product in thorough); (YAML build: the files carry .yaml / .yml in four patterns: all one, all the other, alternating either way, in loading order) plus every order of the table's fields for 36 configurations (unlisted default, inherits entries naming it, namespaces, custom directory), each also with an unknown field among them in every position; the directory holds valid files for exactly the expected (namespace, locale) pairs and unparsable decoys everywhere else (other extension, unlisted locale/namespace, default dir when a custom one is set, top-level vs namespace layout); oracle: accept iff required fields present, no duplicates, inherits names known locales (the default counts even if unlisted) and not the default as key; on accept default first, same set, fields as written, tracked files == expected paths; distinct_nontrivial = distinct i18n tables"));
+    cov.insert("rule".into(), json!("locales in {missing} + every list of length 0..=3 over {en,fr,de} (duplicates included) x default in {en,fr,de,it (unlisted),missing} x namespaces in {absent,[a],[a,b],[b,a],[a,a],[]} x inherits in {none} + every single entry over {en,fr,de,it,xx}^2 (thorough: + five 2-entry maps) x (locales-dir in {absent,./l10n,a/b/,l10n/,locales,../shared_l10n,.hidden,./.dot/x,..//up,an absolute path} x 10 surrounding-manifest shapes (other tables before / after, comments, the table first or alone in the file, indented, CRLF line ends, the header's text quoted in a comment) x unknown fields: rotated in quick, a third of the product in thorough); (YAML build: the files carry .yaml / .yml in four patterns: all one, all the other, alternating either way, in loading order) plus every order of the table's fields for 36 configurations (unlisted default, inherits entries naming it, namespaces, custom directory), each also with an unknown field among them in every position; the directory holds valid files for exactly the expected (namespace, locale) pairs and unparsable decoys everywhere else (other extension, unlisted locale/namespace, default dir when a custom one is set, top-level vs namespace layout); oracle: accept iff required fields present, no duplicates, inherits names known locales (the default counts even if unlisted) and not the default as key; on accept default first, same set, fields as written, tracked files == expected paths; distinct_nontrivial = distinct i18n tables"));
     cov.insert("exhaustive".into(), json!(true));
     cov.insert("outcome_classes".into(), json!(*classes.lock().unwrap()));
     cov.insert("front_end".into(), json!(ext));
